@@ -364,5 +364,38 @@ Definition py_slice {A} (l : list A) (lo hi : option Z) : list A :=
   let n := Z.of_nat (length l) in
   let a := py_slice_bound n lo 0%Z in let b := py_slice_bound n hi n in
   firstn (Z.to_nat (b - a)) (skipn (Z.to_nat a) l).
+(* ------------------------------------------------------------------------- mutable containers (dict of lists, stacks) *)
+(* d[k] = v: the entry keeps its place if the key exists, otherwise it is appended (insertion order) *)
+Fixpoint py_dict_set {K V} (eqb : K -> K -> bool) (d : list (K * V)) (k : K) (v : V) : list (K * V) :=
+  match d with
+  | [] => [(k, v)]
+  | (k', v') :: d' => if eqb k k' then (k', v) :: d' else (k', v') :: py_dict_set eqb d' k v
+  end.
+Definition py_dict_values {K V} (d : list (K * V)) : list V := map snd d.
+(* l.pop(): the last element / what remains *)
+Definition py_pop_value {A} (d : A) (l : list A) : A := last l d.
+Definition py_pop_rest {A} (l : list A) : list A := removelast l.
+(* l.index(x): position of the first occurrence (ValueError guarded by membership) *)
+Fixpoint py_index_of {A} (eqb : A -> A -> bool) (x : A) (l : list A) : Z :=
+  match l with [] => 0%Z | y :: r => if eqb x y then 0%Z else (1 + py_index_of eqb x r)%Z end.
+(* l[i:i] = c *)
+Definition py_insert_at {A} (l : list A) (i : Z) (c : list A) : list A := py_slice l None (Some i) ++ c ++ py_slice l (Some i) None.
+Fixpoint py_list_eqb {A} (eqb : A -> A -> bool) (l1 l2 : list A) : bool :=
+  match l1, l2 with
+  | [], [] => true
+  | x :: r1, y :: r2 => eqb x y && py_list_eqb eqb r1 r2
+  | _, _ => false
+  end.
+(* round(x) for a float x: to the nearest integer, ties to the even one *)
+Definition py_round (q : Q) : Z :=
+  let n := Qnum q in let d := Zpos (Qden q) in
+  let fl := (n / d)%Z in
+  let r2 := (2 * (n - fl * d))%Z in
+  if (r2 <? d)%Z then fl
+  else if (d <? r2)%Z then (fl + 1)%Z
+  else if Z.even fl then fl else (fl + 1)%Z.
+Definition enc_walks (o : result (list (list node))) : list (list Z) :=
+  match o with Ret ps => [1%Z] :: map enc_nodes ps | Exc e => [[0%Z; exn_code e]] | RetNone => [[2%Z]] end.
+
 Definition enc_paths (o : option (list (list node))) : list (list Z) :=
   match o with None => [[0%Z]] | Some ps => [1%Z] :: map enc_nodes ps end.
